@@ -5,7 +5,7 @@ CONSTANTS NCells = 8
  Tails = {0, 17}
  Subs = {0, 16}
  Engines = {"otfad", "iee", "ieectr"}
- Wraps = {0, 17, 64, 70, 127}
+ Wraps = {0, 17, 70}
 SPECIFICATION Spec
 INVARIANT CellsPartition
 INVARIANT OwnerUnique
